@@ -107,7 +107,9 @@ func Harness_P10() {
 		src = p10Rename(src)
 	}
 	ndObserveStr("source", src)
+	pipeContracts = ndParam("CONTRACTS", 0) == 1
 	g.judge(src, calleeDeref, 0)
+	pipeContracts = false
 }
 
 // p10Rename renames the callee's parameter a to a_p and the package-level pointer g to g_v (whole words only).
